@@ -1633,10 +1633,14 @@ var (
 )
 
 // wordsOK says whether the words of one method name are inside the domain of the check.
+var digitRun = regexp.MustCompile(`^[0-9]+$`)
+
 func wordsOK(words []string) bool {
 	for i, w := range words {
 		switch {
 		case lowerWord.MatchString(w):
+		case i > 0 && digitRun.MatchString(w) && !digitRun.MatchString(words[i-1]) && !acronymWord.MatchString(words[i-1]):
+			// a run of digits behind a word (export42Report): a number, not a word
 		case i == 0 && capitalWord.MatchString(w):
 		case acronymWord.MatchString(w):
 			if i > 0 && acronymWord.MatchString(words[i-1]) {
@@ -1707,6 +1711,16 @@ func genConcept(t *rapid.T) ConceptCase {
 			maxWords = 24
 		}
 		words := rapid.SliceOfN(word, 1, maxWords).Draw(t, "words")
+		// eighth seed batch: a number inside or at the end of a name (export42Report, rollback20231005123045123456Step,
+		// v2 is left out: a single letter in front of the digits is not a word of its own): 1-25 digits, also past the
+		// range of a 64-bit integer; numbers are no words
+		if rapid.IntRange(0, 7).Draw(t, "numberInName") == 7 && !pbt.Excluded("digits_in_method_names") {
+			at := rapid.IntRange(1, len(words)).Draw(t, "numberAt")
+			digits := rapid.StringMatching(`[0-9]{1,25}`).Draw(t, "number")
+			if !acronymWord.MatchString(words[at-1]) && (at == len(words) || !acronymWord.MatchString(words[at])) {
+				words = append(words[:at:at], append([]string{digits}, words[at:]...)...)
+			}
+		}
 		switch rapid.IntRange(0, 7).Draw(t, "nameShape") {
 		case 6: // PascalCase
 			words[0] = capitalise(words[0])
@@ -1768,6 +1782,9 @@ func checkConcept(c ConceptCase) pbt.Verdict {
 				}
 				if acronymWord.MatchString(w) {
 					acronym = true
+				}
+				if digitRun.MatchString(w) {
+					continue // a number, not a word
 				}
 				w = strings.ToLower(w)
 				total++
